@@ -1,10 +1,10 @@
 (* Props/C02.v -- property C02: the stochastic gradient is exact on affine ensembles and zero on fixed
-   variables.  Statements only; each is closed by a lemma of Proofs/{Lstsq,SvdBound,Gradient}.v.
+   variables.  Statements only; each is closed by a lemma of Proofs/{Lstsq,SvdBound,Gradient,LstsqComplete}.v.
    All statements are about the executable definitions of Model/Gradient.v that Check/Chk_C02.v
    evaluates against the real implementation.  Equality of rationals is Qeq (==), [veq] is Qeq
    entry by entry, [vz] means every entry == 0. *)
 From Coq Require Import QArith List Bool Arith.
-From Ropt Require Import Base.Num Base.ListX Gen.Generated Model.Gradient Proofs.Lstsq Proofs.SvdBound Proofs.Gradient.
+From Ropt Require Import Base.Num Base.ListX Gen.Generated Model.Gradient Proofs.Lstsq Proofs.SvdBound Proofs.Gradient Proofs.LstsqComplete.
 Import ListNotations.
 Open Scope Q_scope.
 
@@ -157,6 +157,81 @@ Theorem C02_weighted_objective : forall n ow gs k, Forall (fun g => length g = n
   nth k (weighted_objective_gradient n ow gs) 0 == wsum ow (map (fun g => nth k g 0) gs).
 Proof. exact wvsum_nth. Qed.
 
+(* ---- Completeness of the certified solver (Proofs/LstsqComplete.v) ------------------------------------------------
+   The theorems above say what an accepted vector is; these say that one IS returned.  For every number of
+   columns n: if A has n columns, b one entry per row, and A has full column rank, the Cramer proposer passes
+   the acceptance test, so the solver never answers "singular".  (Cramer's rule and det <> 0 for a definite
+   Gram matrix are proved for the model's own cofactor determinant, generically in n.) *)
+Theorem C02_lstsq_complete : forall n A b,
+  wfm n A -> length b = length A -> (forall d, length d = n -> vz (mv A d) -> vz d) ->
+  exists g, lstsq n A b = Some g.
+Proof. exact lstsq_complete. Qed.
+
+(* The same for the weighted stacked solve of the merged estimate: non-negative weights, and only the STACK of
+   the systems with positive weight needs full column rank. *)
+Theorem C02_wlstsq_complete : forall n sys,
+  Forall (wfs n) sys -> (forall s, In s sys -> 0 <= fst s) ->
+  (forall d, length d = n -> (forall s, In s sys -> 0 < fst s -> vz (mv (fst (snd s)) d)) -> vz d) ->
+  exists g, wlstsq n sys = Some g.
+Proof. exact wlstsq_complete. Qed.
+
+(* Conversely a vector is returned ONLY for well-shaped data of full (joint) column rank: with the two theorems
+   above, "singular" is answered exactly on rank-deficient (or ill-shaped) data. *)
+Theorem C02_wlstsq_some_only_if_full_rank : forall n sys g,
+  (forall s, In s sys -> 0 <= fst s) -> wlstsq n sys = Some g ->
+  Forall (wfs n) sys /\
+  (forall d, length d = n -> (forall s, In s sys -> 0 < fst s -> vz (mv (fst (snd s)) d)) -> vz d).
+Proof. exact wlstsq_some_joint_rank. Qed.
+
+(* Singular values and rank.  The singular values are an oracle (NumPy's); what the theorems use is the
+   characterisation of the smallest squared one as a lower bound of the Rayleigh quotient of A^T A, written
+   homogeneously:  smin * |x|^2 <= |A x|^2  for every x.  If smin > 0 then A has full column rank. *)
+Theorem C02_singular_values_full_rank : forall n A smin, 0 < smin ->
+  (forall x, length x = n -> smin * rdot x x <= rdot (mv A x) (mv A x)) ->
+  forall d, length d = n -> vz (mv A d) -> vz d.
+Proof. exact rayleigh_full_rank. Qed.
+
+(* Inside the property's conditioning clause (n squared singular values, descending, the smallest at least 1 % of
+   the total) the smallest one is positive, so the clause implies full column rank ... *)
+Theorem C02_bound_implies_full_rank : forall n A s2, well_conditioned n s2 = true ->
+  (forall x, length x = n -> last s2 0 * rdot x x <= rdot (mv A x) (mv A x)) ->
+  forall d, length d = n -> vz (mv A d) -> vz d.
+Proof. exact well_conditioned_full_rank. Qed.
+
+(* ... and under the 1 % bound the code's rule truncates nothing and the model's solver returns THE least-squares
+   solution: it is returned, it minimises |A g - b|^2, every minimiser equals it, and for consistent data
+   (b == A a) it is a. *)
+Theorem C02_bound_solver_returns_least_squares : forall n A b s2,
+  wfm n A -> length b = length A -> well_conditioned n s2 = true ->
+  (forall x, length x = n -> last s2 0 * rdot x x <= rdot (mv A x) (mv A x)) ->
+  keeps_all svd_tolerance s2 = true /\
+  exists g, lstsq n A b = Some g /\
+    (forall h, length h = n -> rss A b g <= rss A b h) /\
+    (forall g', length g' = n -> (forall h, length h = n -> rss A b g' <= rss A b h) -> veq g' g) /\
+    (forall a, length a = n -> veq b (mv A a) -> veq g a).
+Proof. exact well_conditioned_lstsq. Qed.
+
+(* Consequences for the gradient model: on an affine ensemble whose contributing realizations have full column
+   rank it never answers GSingular (whatever the estimator), the mean gradient IS returned and is exact ... *)
+Theorem C02_never_singular_on_full_rank_ensembles : forall n x rs failed w wh sl e, length x = n ->
+  normalize (zero_failed failed w) = Some wh -> affine_ens n x rs wh sl ->
+  calc_gradient n x rs failed w e false <> GSingular.
+Proof. exact calc_gradient_not_singular. Qed.
+Theorem C02_mean_affine_total : forall n x rs failed w wh sl, length x = n ->
+  normalize (zero_failed failed w) = Some wh -> affine_ens n x rs wh sl ->
+  exists g, calc_gradient n x rs failed w EMean false = GMean g /\ veq g (affine_mean_gradient n wh sl).
+Proof. exact mean_affine_total. Qed.
+
+(* ... and the merged estimate is returned for ANY function values (affine or not) as soon as the perturbed
+   vectors have n entries, the weights are non-negative and the stacked difference matrices of the
+   realizations with positive weight have full column rank. *)
+Theorem C02_merged_total : forall n x rs ws, length x = n ->
+  (forall r w, In (r, w) (combine rs ws) -> 0 <= w /\ Forall (fun p => length p = n) (r_X r)) ->
+  (forall d, length d = n ->
+     (forall r w, In (r, w) (combine rs ws) -> 0 < w -> vz (mv (fst (system_of x r)) d)) -> vz d) ->
+  exists g, estimate_merged n x rs ws = Some g.
+Proof. exact merged_total. Qed.
+
 (* Non-vacuity: two realizations, three variables of which the middle one is fixed, slopes (2,_,-3)
    and (4,_,1), weights 1 and 3, the second perturbation of realization 1 failed (still full rank
    with the remaining two), an extra failed realization.  The model returns exactly the weighted
@@ -202,6 +277,20 @@ Example C02_example_joint :
   rss [[1; 0]; [0; 1]; [1; 1]] [1; 1; 0] [1 # 3; 1 # 3] == 4 # 3.
 Proof. repeat split; vm_compute; reflexivity. Qed.
 
+(* Non-vacuity of the conditioning hypotheses of C02_bound_solver_returns_least_squares: A = [[1 0];[0 1];[1 1]],
+   A^T A = [[2 1];[1 2]] has eigenvalues 3 and 1 (inside the 1 % bound), |A x|^2 >= 1 * |x|^2, inconsistent data. *)
+Example C02_example_complete :
+  let A := [[1; 0]; [0; 1]; [1; 1]] in
+  well_conditioned 2 [3; 1] = true /\
+  (forall x, length x = 2%nat -> last [3; 1] 0 * rdot x x <= rdot (mv A x) (mv A x)) /\
+  lstsq 2 A [1; 1; 0] = Some [1 # 3; 1 # 3].
+Proof.
+  split; [vm_compute; reflexivity|]. split; [|vm_compute; reflexivity].
+  intros x Hx. destruct x as [|a [|b [|? ?]]]; try discriminate.
+  cbn [last mv map rdot]. rewrite !radd_correct.
+  assert (H : 0 <= (a + b) * (a + b)) by (generalize (a + b); intros c; Lqa.nra). Lqa.nra.
+Qed.
+
 Print Assumptions C02_lstsq_exact.
 Print Assumptions C02_accepted_satisfies_normal_equations.
 Print Assumptions C02_lstsq_least_squares.
@@ -222,3 +311,12 @@ Print Assumptions C02_variable_scaling.
 Print Assumptions C02_fixed_entries_zero.
 Print Assumptions C02_optimizer_matrix.
 Print Assumptions C02_weighted_objective.
+Print Assumptions C02_lstsq_complete.
+Print Assumptions C02_wlstsq_complete.
+Print Assumptions C02_wlstsq_some_only_if_full_rank.
+Print Assumptions C02_singular_values_full_rank.
+Print Assumptions C02_bound_implies_full_rank.
+Print Assumptions C02_bound_solver_returns_least_squares.
+Print Assumptions C02_never_singular_on_full_rank_ensembles.
+Print Assumptions C02_mean_affine_total.
+Print Assumptions C02_merged_total.
